@@ -130,18 +130,19 @@ def sessionRound2 (peers : List Nat) (stream : List Nat) : Option (List (Nat × 
     | some (out, rest) => some ((p, stream.take 32, (stream.drop 32).take 32) :: out, rest)
     | none => none
 
+/-- loop of `sessionRound2Hoisted`: only the witness is fresh per peer -/
+def sessionRound2HoistedLoop (contribution : List Nat) : List Nat → List Nat → Option (List (Nat × List Nat × List Nat) × List Nat)
+  | [], s => some ([], s)
+  | p :: ps, s =>
+    if s.length < 32 then none else
+    match sessionRound2HoistedLoop contribution ps (s.drop 32) with
+    | some (out, rest) => some ((p, contribution, s.take 32) :: out, rest)
+    | none => none
+
 /-- the same round with the contribution sampled ONCE above the loop (the shape of the defect the
     consumption and distinctness oracles exist for): used only to show that the oracles separate it -/
 def sessionRound2Hoisted (peers : List Nat) (stream : List Nat) : Option (List (Nat × List Nat × List Nat) × List Nat) :=
   if stream.length < 32 then none else
-  let contribution := stream.take 32
-  let rec go : List Nat → List Nat → Option (List (Nat × List Nat × List Nat) × List Nat)
-    | [], s => some ([], s)
-    | p :: ps, s =>
-      if s.length < 32 then none else
-      match go ps (s.drop 32) with
-      | some (out, rest) => some ((p, contribution, s.take 32) :: out, rest)
-      | none => none
-  go peers (stream.drop 32)
+  sessionRound2HoistedLoop (stream.take 32) peers (stream.drop 32)
 
 end BronVerif.Draws
